@@ -5,6 +5,7 @@
 -/
 import Stef.BitStream
 import Stef.Proofs.BitStream
+import Stef.Proofs.Bits
 
 namespace Stef
 
@@ -158,13 +159,16 @@ theorem loadN_getLsbD (buf : Bytes) (i : Nat) : ∀ (n : Nat), n ≤ 8 → ∀ j
       have h1 : (j - 8) / 8 = j / 8 - 1 := by omega
       have h2 : (j - 8) % 8 = j % 8 := by omega
       have h4 : (buf.getD (i + n) 0#8).getLsbD j = false := by apply BitVec.getLsbD_of_ge; omega
-      have hidx : n - 1 - (j / 8 - 1) = n + 1 - 1 - j / 8 ∨ ¬ (j - 8 < 8 * n) := by omega
+      have h5 : ¬ j < 8 := h8
+      rw [h1, h2, h4]
+      simp only [h5, decide_false, Bool.not_false, Bool.and_true, Bool.false_and, Bool.or_false, hj, decide_true,
+        Bool.true_and, Nat.add_one_sub_one]
       by_cases hlt : j - 8 < 8 * n
       · have h3 : j < 8 * (n + 1) := by omega
-        have hidx' : n - 1 - (j / 8 - 1) = n + 1 - 1 - j / 8 := by omega
-        simp [h8, hj, h1, h2, h3, h4, hlt, hidx']
+        have hidx' : n - 1 - (j / 8 - 1) = n - j / 8 := by omega
+        simp only [hlt, h3, decide_true, Bool.true_and, hidx']
       · have h3 : ¬ j < 8 * (n + 1) := by omega
-        simp [h8, hj, h3, h4, hlt]
+        simp only [hlt, h3, decide_false, Bool.false_and]
 
 /-- the 8-byte load of the fast refill path holds the next 64 bits of the buffer -/
 theorem load64_getMsbD (buf : Bytes) (i k : Nat) (hk : k < 64) :
@@ -183,6 +187,188 @@ theorem load64_getMsbD (buf : Bytes) (i k : Nat) (hk : k < 64) :
   simp only [BitVec.getMsbD]
   have : k % 8 < 8 := by omega
   simp [this]
+
+end BitsReader
+end Stef
+
+namespace Stef
+namespace BitsReader
+
+/-- the `n` buffer bits starting at `pos`, as a number -/
+def window (buf : Bytes) (pos n : Nat) : Word :=
+  wordOfBits ((List.range n).map (fun j => bitAt buf (pos + j))) 0#64
+
+theorem window_getLsbD (buf : Bytes) (pos n j : Nat) (hj : j < 64) :
+    (window buf pos n).getLsbD j = (decide (j < n) && bitAt buf (pos + (n - 1 - j))) := by
+  unfold window
+  rw [wordOfBits_getLsbD _ _ _ hj]
+  simp only [List.length_map, List.length_range]
+  by_cases h : j < n
+  · simp only [h, ↓reduceIte, decide_true, Bool.true_and]
+    rw [List.getD_eq_getElem?_getD, List.getElem?_map, List.getElem?_range (by omega)]
+    simp
+  · simp [h]
+
+structure RInv (r : BitsReader) (pos : Nat) : Prop where
+  good : Good r pos
+  noeof : r.eof = false
+  nopanic : r.panicked = false
+  posn : (r.eofPadded = false ∧ pos + r.availBitCount = 8 * r.byteIndex ∧ r.byteIndex ≤ r.buf.length ∧
+            r.availBitCount ≤ 63) ∨
+         (r.eofPadded = true ∧ r.buf.length ≤ r.byteIndex ∧ pos + r.availBitCount = 8 * r.buf.length + 56 ∧
+            8 * r.buf.length ≤ pos + 63)
+
+theorem rinv_init (buf : Bytes) : RInv { buf := buf } 0 := by
+  refine ⟨⟨?_, ?_⟩, rfl, rfl, Or.inl ⟨rfl, by simp, by simp, by simp⟩⟩
+  · intro i _ h; simp at h
+  · intro i _ h; simp [BitVec.getMsbD] at h
+
+/-- the fast path of PeekBits: the top `n` bits of the register are the window -/
+theorem peek_value (r : BitsReader) (pos n : Nat) (hg : Good r pos) (hn : n ≤ r.availBitCount) (h64 : n ≤ 64) :
+    r.bitBuf >>> (64 - n) = window r.buf pos n := by
+  apply BitVec.eq_of_getLsbD_eq
+  intro j hj
+  rw [window_getLsbD _ _ _ _ hj, BitVec.getLsbD_ushiftRight]
+  by_cases h : j < n
+  · have e : 64 - n + j = 64 - 1 - (n - 1 - j) := by omega
+    have hi : n - 1 - j < 64 := by omega
+    have := hg.a (n - 1 - j) hi (by omega)
+    simp only [BitVec.getMsbD, hi, decide_true, Bool.true_and] at this
+    simp only [h, decide_true, Bool.true_and, e, this]
+  · simp only [h, decide_false, Bool.false_and]
+    apply BitVec.getLsbD_of_ge; omega
+
+/-- `Consume(n)` after a successful peek moves the position by `n`. -/
+theorem consume_spec (r : BitsReader) (pos n : Nat) (hI : RInv r pos) (hn : n ≤ r.availBitCount) :
+    RInv (r.consume n) (pos + n) := by
+  obtain ⟨hg, he, hp, hpos⟩ := hI
+  have hav : (r.consume n).availBitCount = r.availBitCount - n := by simp [consume, hn]
+  refine ⟨⟨?_, ?_⟩, by simpa [consume] using he, by simpa [consume] using hp, ?_⟩
+  · intro i hi hlt
+    rw [hav] at hlt
+    simp only [consume, BitVec.getMsbD_shiftLeft]
+    have h1 : i + n < 64 ∨ 64 ≤ i + n := by omega
+    rcases h1 with h1 | h1
+    · have := hg.a (i + n) h1 (by omega)
+      simp only [hi, decide_true, Bool.true_and, this]
+      congr 1; omega
+    · -- beyond the register: the bit is 0, and so is the buffer (only phantom bits can be there)
+      have hz : r.bitBuf.getMsbD (i + n) = false := by simp [BitVec.getMsbD]; omega
+      simp only [hi, decide_true, Bool.true_and, hz]
+      symm
+      rcases hpos with ⟨_, h2, h3, h4⟩ | ⟨_, h3, h4, h5⟩
+      · omega
+      · apply bitAt_past_end
+        -- pos + avail = 8 len + 56 and i + n < avail with i + n ≥ 64 > 56
+        omega
+  · intro i hi hset
+    simp only [consume, BitVec.getMsbD_shiftLeft, hi, decide_true, Bool.true_and] at hset
+    have h1 : i + n < 64 := by
+      rcases Nat.lt_or_ge (i + n) 64 with h | h
+      · exact h
+      · have : r.bitBuf.getMsbD (i + n) = false := by simp [BitVec.getMsbD]; omega
+        rw [this] at hset; cases hset
+    have := hg.b (i + n) h1 hset
+    have e : pos + n + i = pos + (i + n) := by omega
+    rw [e]; exact this
+  · rw [hav]
+    rcases hpos with ⟨h1, h2, h3, h4⟩ | ⟨h1, h3, h4, h5⟩
+    · left; exact ⟨by simpa [consume] using h1, by simp [consume]; omega, by simpa [consume] using h3, by omega⟩
+    · right; exact ⟨by simpa [consume] using h1, by simpa [consume] using h3, by simp [consume]; omega, by simp [consume]; omega⟩
+
+end BitsReader
+end Stef
+
+namespace Stef
+namespace BitsReader
+
+theorem or56 : ∀ a, a < 56 → a ||| 56 = 56 + a % 8 ∧ (63 - a) >>> 3 = 7 - a / 8 := by decide
+
+theorem ushiftRight_getMsbD (x : Word) (a i : Nat) (hi : i < 64) :
+    (x >>> a).getMsbD i = (decide (a ≤ i) && x.getMsbD (i - a)) := by
+  simp only [BitVec.getMsbD, BitVec.getLsbD_ushiftRight, hi, decide_true, Bool.true_and]
+  by_cases h : a ≤ i
+  · have e : a + (64 - 1 - i) = 64 - 1 - (i - a) := by omega
+    have h2 : i - a < 64 := by omega
+    simp [h, e, h2]
+  · have : 64 ≤ a + (64 - 1 - i) := by omega
+    have hz : x.getLsbD (a + (64 - 1 - i)) = false := BitVec.getLsbD_of_ge _ _ this
+    simp [h, hz]
+
+/-- the fast refill path (at least 9 bytes left): loads 8 bytes, keeps 56..63 bits available. -/
+theorem refill_fast (r : BitsReader) (pos : Nat) (hI : RInv r pos) (ha : r.availBitCount < 56)
+    (hfast : r.byteIndex + 8 < r.buf.length) :
+    RInv { r with bitBuf := r.bitBuf ||| (load64 r.buf r.byteIndex >>> r.availBitCount),
+                  byteIndex := r.byteIndex + ((63 - r.availBitCount) >>> 3),
+                  availBitCount := r.availBitCount ||| 56 } pos ∧
+    56 ≤ (r.availBitCount ||| 56) := by
+  obtain ⟨hg, he, hp, hpos⟩ := hI
+  obtain ⟨h1, h2⟩ := or56 r.availBitCount ha
+  rcases hpos with ⟨hp1, hp2, hp3, hp4⟩ | ⟨_, hq, _, _⟩
+  · refine ⟨⟨⟨?_, ?_⟩, he, hp, Or.inl ⟨hp1, ?_, ?_, ?_⟩⟩, by omega⟩
+    · intro i hi _
+      simp only
+      rw [BitVec.getMsbD_or, ushiftRight_getMsbD _ _ _ hi]
+      by_cases hlt : i < r.availBitCount
+      · have : ¬ r.availBitCount ≤ i := by omega
+        simp [this, hg.a i hi hlt]
+      · have hle : r.availBitCount ≤ i := by omega
+        rw [load64_getMsbD _ _ _ (by omega)]
+        have e : 8 * r.byteIndex + (i - r.availBitCount) = pos + i := by omega
+        simp only [hle, decide_true, Bool.true_and, e]
+        cases hb : r.bitBuf.getMsbD i with
+        | false => simp
+        | true => simp [hg.b i hi hb]
+    · intro i hi hset
+      simp only at hset
+      rw [BitVec.getMsbD_or, ushiftRight_getMsbD _ _ _ hi] at hset
+      cases hb : r.bitBuf.getMsbD i with
+      | true => exact hg.b i hi hb
+      | false =>
+        simp only [hb, Bool.false_or, Bool.and_eq_true, decide_eq_true_eq] at hset
+        rw [load64_getMsbD _ _ _ (by omega)] at hset
+        have e : 8 * r.byteIndex + (i - r.availBitCount) = pos + i := by omega
+        rw [e] at hset; exact hset.2
+    · simp only; rw [h1, h2]; omega
+    · simp only; rw [h2]; omega
+    · simp only; rw [h1]; omega
+  · omega
+
+/-- the slow refill path (near the end of the buffer), when at least one byte is left. -/
+theorem refill_slow (r : BitsReader) (pos : Nat) (hI : RInv r pos) (ha : r.availBitCount < 56)
+    (hmore : r.byteIndex < r.buf.length) :
+    RInv (refillSlow r) pos ∧ 56 ≤ (refillSlow r).availBitCount ∧ (refillSlow r).buf = r.buf := by
+  obtain ⟨hg, he, hp, hpos⟩ := hI
+  rcases hpos with ⟨hp1, hp2, hp3, hp4⟩ | ⟨_, hq, _, _⟩
+  · have hnot : ¬ r.byteIndex ≥ r.buf.length := by omega
+    simp only [refillSlow, hnot, ↓reduceIte]
+    have hl := refillLoop_spec 8 r pos hg hp2 hp3 (by omega)
+    simp only at hl
+    obtain ⟨l1, l2, l3, l4, l5, l6, l7, l8, l9, l10⟩ := hl
+    by_cases hend : (refillLoop r 8).byteIndex ≥ (refillLoop r 8).buf.length
+    · simp only [hend, ↓reduceIte]
+      refine ⟨⟨⟨?_, ?_⟩, by simpa using (l5.trans he), by simpa using (l6.trans hp), Or.inr ⟨rfl, ?_, ?_, ?_⟩⟩, by omega, l4⟩
+      · intro i hi _
+        simp only
+        by_cases hlt : i < (refillLoop r 8).availBitCount
+        · exact l1.a i hi hlt
+        · have hpast : bitAt (refillLoop r 8).buf (pos + i) = false := by
+            apply bitAt_past_end; omega
+          rw [hpast]
+          cases hb : (refillLoop r 8).bitBuf.getMsbD i with
+          | false => rfl
+          | true => have := l1.b i hi hb; rw [hpast] at this; cases this
+      · intro i hi hset; exact l1.b i hi hset
+      · simpa using hend
+      · simp only; omega
+      · simp only; omega
+    · simp only [hend, ↓reduceIte]
+      have h56 : 56 ≤ (refillLoop r 8).availBitCount := by
+        rcases l10 with h | h
+        · omega
+        · exact h
+      refine ⟨⟨l1, l5.trans he, l6.trans hp, Or.inl ⟨l7.trans hp1, l2, l3, by omega⟩⟩, h56, l4⟩
+  · omega
 
 end BitsReader
 end Stef
